@@ -9,17 +9,86 @@ TRUSTED = ("Trusted: z3 5.1.0; the pyvc VC generator (AST interpreter + symbolic
            "concrete-mode conformance suite and by native replay of every counterexample); the spec library specs/*.py; ASCII source "
            "text; external I/O functions under their ghost-filesystem contracts. Python ints are mathematical (no machine arithmetic).")
 
+TECH = "contract-based deductive verification: VCs generated from the AST of the real source (pyvc), discharged by z3, counterexamples replayed natively"
+TECHB = TECH + "; bounded stand-in (same engine, enumerated sizes, symbolic contents) where stated"
+
+
+def C(level, text, design, technique=TECH, note=None):
+    d = dict(level=level, text=text, design=design, technique=technique)
+    if note:
+        d["note"] = note
+    return d
+
+
 CHECKS = {
-    "C01": dict(
-        level="other",
-        text="Deductive: every (mnemonic x operand form x literal spelling) cell is executed symbolically through the REAL pipeline "
-             "(parse_line -> create_from_str -> resolve_symbols -> translate -> address passes -> get_binary_array) with the literal's "
-             "digits symbolic, and z3 proves on every path that the emitted bytes decode (independent MC6809 decoder spec) to the "
-             "operation/mode/register/value written. All values of a cell are decided at once; cells enumerate the finite form set "
-             "completely in the thorough tier. Level is 'other' only because some cells are refuted on the pinned tree (genuine "
-             "defects, replayed natively, listed in known_findings.json); all remaining obligations are discharged.",
-        design="DESIGN.md 4 (C01), 12",
-        technique="contract-based deductive verification: AST->VC generation over the real source, z3, native counterexample replay"),
+    "C01": C("other", "Every (mnemonic x operand form x register x literal spelling) cell is executed symbolically through the REAL pipeline "
+             "(parse_line -> create_from_str -> resolve_symbols -> translate -> size/address passes -> get_binary_array) with the digits of the "
+             "literal symbolic; on every path z3 proves that the emitted bytes decode, with an independent MC6809 decoder spec, to the "
+             "operation / mode / register / value written.  Register lists and pairs are enumerated completely.  Label operands via "
+             "multi-statement templates with symbolic origin and distance.  Not `proof` only because some cells are refuted on the tree "
+             "(genuine defects, replayed natively, listed in known_findings.json); every other obligation is discharged.", "DESIGN 4 C01, 12"),
+    "C02": C("other", "Size agreement (bytes emitted == bytes reserved) is an obligation of every assembler cell; the address chain, symbol values "
+             "and origin are proved on multi-statement templates whose origin and gap size are symbolic (all origins, all distances), "
+             "against image semantics computed from the emitted bytes.  ORG placement shapes enumerated.  Refuted cells are known findings.",
+             "DESIGN 4 C02, 12"),
+    "C03": C("other", "Branch / PCR templates with symbolic origin and symbolic distance (RMB n, digits symbolic): z3 proves "
+             "(address + length + decoded displacement) mod 65536 == target (+constant) on every path, and that out-of-range short branches "
+             "are rejected.  Unbounded in distance for one PCR statement; 2-3 mutually dependent PCR statements with symbolic gaps are a "
+             "bounded stand-in.", "DESIGN 4 C03, 12", TECHB),
+    "C04": C("other", "Operand position x term kinds x operator cells with symbolic literal digits, symbolic EQU values and symbolic label addresses; "
+             "the oracle is exprsem.evaluate.  Products / quotients keep one side enumerated (0..9) to stay linear.  Most cells are refuted on "
+             "the tree (known findings); the discharged ones are proved for all values.", "DESIGN 4 C04, 12"),
+    "C05": C("other", "FCB / FDB with symbolic digits (lists up to 3 elements unbounded in value; longer lists and FCC strings with symbolic "
+             "characters are bounded stand-ins), RMB size for symbolic n, directives that emit nothing.", "DESIGN 4 C05, 12", TECHB),
+    "C06": C("other", "BOUNDED stand-in for the composed round trip: file count <= 3, data lengths enumerated (boundary lengths quick, every length "
+             "0..765 thorough), contents / addresses / name characters symbolic; reader on foreign streams with other leader and gap "
+             "lengths.  The writer side is proved unboundedly under C14.", "DESIGN 4 C06, 12", TECHB),
+    "C07": C("other", "Unbounded: geometry and length arithmetic contracts for all granules / all lengths.  BOUNDED stand-in for layout and "
+             "read-back: enumerated data lengths x fill orders x file kinds x pre-existing files with symbolic contents, tool reader and "
+             "independent reader (specs/diskbasic).", "DESIGN 4 C07, 12", TECHB),
+    "C08": C("other", "Unbounded: seek_granule geometry (in image, disjoint, off the directory track), length identity and ranges for every stream "
+             "length.  BOUNDED: whole-image consistency (independent Disk BASIC checker incl. frame against a fresh image) on the "
+             "enumerated family of C07.", "DESIGN 4 C08, 12", TECHB),
+    "C09": C("other", "BOUNDED stand-in for the history quantifier: open/add/save/re-open sessions through VirtualFile on the ghost filesystem "
+             "(up to 4 additions, boundary lengths, symbolic contents for cassette and short disk files), CLI --append sequences, and kind "
+             "recognition of tool-written images of every size class.  Per-step contracts come from C14 / C06 / C07 / C08.",
+             "DESIGN 4 C09, 12", TECHB),
+    "C10": C("other", "The finite configuration matrix {bin,cas,dsk} x {append,no append} x {absent, empty, cassette, disk, raw, arbitrary, "
+             "cassette >= 161,280 bytes} is enumerated COMPLETELY through assembler.main and file_util.main executed by the AST interpreter on "
+             "a ghost filesystem (every write observed), target bytes compared before/after, images parsed by independent readers.  "
+             "Contents of the programs / images are concrete representatives.", "DESIGN 4 C10, 12"),
+    "C11": C("other", "assembler.main executed by the AST interpreter for every output switch (alone, combined, --name, no name) on representative "
+             "programs; the written files are parsed with the independent tape / disk readers and compared with Program.get_binary_array, "
+             "origin and name.  Origin / name extraction for ALL origins is carried by C02:origin (symbolic origin).", "DESIGN 4 C11, 12"),
+    "C12": C("other", "Same cells as C01 plus the invalid ones: modes the instruction does not have, values outside the operand width, wrong "
+             "registers, malformed register lists -- with symbolic values.  Clause: rejected with a diagnostic, and if accepted anyway the "
+             "bytes are exactly one instruction of that mnemonic with size == length.", "DESIGN 4 C12, 12"),
+    "C13": C("other", "Every assembler cell carries `terminates` (loop bound of the real while loop + native watchdog) and `no-internal-error` "
+             "(only ParseError / TranslationError may leave Program.process) obligations for all symbolic values; CLI cells carry "
+             "exit-status / no-output-file obligations.  Arbitrary texts are covered by the form / invalid-form families, not by an "
+             "unbounded string theory (see DESIGN 12).", "DESIGN 4 C13, 12"),
+    "C14": C("proof", "Function-by-function contracts on the real cassette writer, unbounded in data length and contents (z3 Seq theory): "
+             "append_data_blocks against the recursive format definition (loop invariant with ghost split, recursion through its own "
+             "contract, decreases obligation), append_name, append_header, append_eof, append_blank/leader, add_file, add_files.  "
+             "All obligations discharged on the tree; natively the clauses are the checksum-verifying recogniser specs/tape.parse_stream.",
+             "DESIGN 4 C14, 12"),
+    "C15": C("other", "Unbounded: find_empty_granule / find_empty_directory_entry for EVERY FAT / directory state (68 / 72 symbolic bytes), the "
+             "fill-order table lemma, granules-needed minimality for every length.  BOUNDED: granules used per write on the C07 family, "
+             "three concrete empty-to-full histories.", "DESIGN 4 C15, 12", TECHB),
+    "C16": C("other", "file_util.main executed by the AST interpreter on the ghost filesystem: every source kind x target kind x file set x --files "
+             "selection (upper / lower / mixed case), conversion chains, --to_bin, pre-existing targets; results parsed by the independent "
+             "readers.  File sets are concrete representatives (bounded).", "DESIGN 4 C16, 12", TECHB),
+    "C17": C("proof", "Frame (modifies) obligations generated on EVERY symbolic path of every assembler cell: each heap write performed by the real code "
+             "must target an object created in that run -- never an import-time object (INSTRUCTIONS, default-argument NoneValue()s, compiled "
+             "regexes, class attributes) and never the caller's list of lines; plus a syntactic scan for nondeterminism sources.  All "
+             "discharged.  Warm-vs-fresh process and hash-seed agreement is additionally observed natively (bounded, not counted).",
+             "DESIGN 4 C17, 12"),
+    "C18": C("other", "Relocation by self-composition with BOTH origins symbolic (all origin pairs on one side of $100): lengths equal, addresses "
+             "shift by D, relative/constant bytes equal, absolute operands shift by exactly D -- proved per statement kind.  Renaming, "
+             "reformatting and suffix-append relations are a bounded stand-in over a program corpus.", "DESIGN 4 C18, 12", TECHB),
+    "C19": C("other", "BOUNDED stand-in: every corpus program split at statement boundaries into including / included files (also nested to depth 3, "
+             "middle third) must equal the spliced program in image, addresses and symbols; missing file and cycles must be diagnostics.",
+             "DESIGN 4 C19, 12", TECHB),
 }
 
 NOT_YET = {
